@@ -214,11 +214,18 @@ package parse
 //@   noframe
 //@   maypanic
 //
+// newParse returns a parser only for a file that is not already on the include chain; otherwise it stops with the
+// "circular reference" diagnostic. (That every include cycle reaches this check - the chain carries the same
+// resolved paths that are compared here - is part of the trusted include handling.)
+//
 //@ func newParse
-//@   trusted
 //@   allocates
 //@   maypanic
+//@   noframe
 //@   ensures result != nil && fresh(result) && parseOK(result) && fresh(result.lex) && result.tarsFile != nil && fresh(result.tarsFile)
+//@   ensures [C16] forall j {incChain[j]} :: (0 <= j && j < len(incChain)) ==> old(incChain[j]) != source
+//@   loop 0 invariant [C16] forall j {incChain[j]} :: (0 <= j && j <= rangeindex) ==> incChain[j] != source
+//@   termination [C16]
 //
 // parseModule: trusted. Besides calling parseModuleSegment (under contract) it only does the bookkeeping for
 // several modules in one file (one range loop over already parsed files) and the include analysis.
